@@ -970,6 +970,53 @@ Section Proofs.
     - intros m Hm. apply In_resolve; split; auto. apply has_name_In; auto.
   Qed.
 
+  (** * Histories that do not write storage (e.g. shutdown: the context is cancelled, jobs and
+      passes run to their ends, the issuer refuses): the cache clauses hold end to end *)
+  Definition quiet (s : state) (h : list event) : Prop :=
+    forall h1 h2, h = h1 ++ h2 -> store (run s h1) = store s.
+
+  Lemma quiet_cons s e r : quiet s (e :: r) -> store (step s e) = store s /\ quiet (step s e) r.
+  Proof.
+    intros Q. assert (E : store (step s e) = store s) by (apply (Q [e] r); reflexivity).
+    split; auto. intros h1 h2 ->. rewrite E. apply (Q (e :: h1) h2). reflexivity.
+  Qed.
+
+  Lemma stored_cert_stays s h x :
+    WF s -> quiet s h -> In x (cache s) -> stored (store s) (chead x) = Some x ->
+    In x (cache (run s h)).
+  Proof.
+    revert s; induction h as [|e r IH]; intros s W Q Hx S; [exact Hx|].
+    destruct (quiet_cons s e r Q) as [E Q']. rewrite run_cons. apply IH; auto using WF_step.
+    - destruct (mem_cert x (cache (step s e))) eqn:M; [apply mem_cert_In; auto|].
+      exfalso. assert (N : ~ In x (cache (step s e))) by (rewrite <- mem_cert_In, M; discriminate).
+      destruct (step_removal s e x W Hx N) as (st & S' & Ne & _).
+      rewrite E, S in S'. injection S' as <-. apply Ne; reflexivity.
+    - rewrite E; exact S.
+  Qed.
+
+  Theorem quiet_history_cache s h :
+    WF s -> quiet s h ->
+    (forall c, In c (cache s) -> ~ In c (cache (run s h)) ->
+       exists st, stored (store s) (chead c) = Some st /\ cid st <> cid c /\ In st (cache (run s h))) /\
+    (forall c, In c (cache (run s h)) -> ~ In c (cache s) -> stored (store s) (chead c) = Some c).
+  Proof.
+    revert s; induction h as [|e r IH]; intros s W Q.
+    { cbn. split; intros c H N; contradiction. }
+    destruct (quiet_cons s e r Q) as [E Q']. rewrite run_cons.
+    destruct (IH (step s e) (WF_step od idue s e W) Q') as [IH1 IH2]. rewrite E in IH1, IH2.
+    split; intros c H N.
+    - destruct (mem_cert c (cache (step s e))) eqn:M.
+      + apply mem_cert_In in M. apply IH1; auto.
+      + assert (N1 : ~ In c (cache (step s e))) by (rewrite <- mem_cert_In, M; discriminate).
+        destruct (step_removal s e c W H N1) as (st & S & Ne & Hst). rewrite E in S.
+        exists st; repeat split; auto.
+        apply stored_cert_stays; auto using WF_step.
+        destruct (wf_stored od s _ st W S) as [-> _]. rewrite E; exact S.
+    - destruct (mem_cert c (cache (step s e))) eqn:M.
+      + apply mem_cert_In in M. rewrite <- E. apply (step_added_from_storage s e c W M N).
+      + apply IH2; auto. rewrite <- mem_cert_In, M; discriminate.
+  Qed.
+
   (** * The boolean well-formedness check implies [WF] *)
   Lemma filter_le1_by_member {A} (f : name -> A -> bool) (key : A -> name) (l : list A) :
     (forall n x, f n x = true -> key x = n) ->
